@@ -122,6 +122,20 @@ impl<T> VxIter<T> {
             }
     { unimplemented!() }
 
+    /// Iterator::find_map: the first Some(..) the closure returns (it returned None on every earlier element)
+    #[verifier::external_body]
+    pub fn find_map<U, F: Fn(T) -> Option<U>>(&mut self, f: F) -> (r: Option<U>)
+        requires forall|i: int| 0 <= i < old(self)@.len() ==> call_requires(f, (#[trigger] old(self)@[i],))
+        ensures
+            match r {
+                Some(u) => exists|i: int| 0 <= i < old(self)@.len()
+                    && call_ensures(f, (#[trigger] old(self)@[i],), Some(u))
+                    && (forall|j: int| 0 <= j < i ==> call_ensures(f, (#[trigger] old(self)@[j],), None::<U>))
+                    && final(self)@ == old(self)@.skip(i + 1),
+                None => final(self)@.len() == 0 && forall|j: int| 0 <= j < old(self)@.len() ==> call_ensures(f, (#[trigger] old(self)@[j],), None::<U>),
+            }
+    { unimplemented!() }
+
     /// Iterator::last
     #[verifier::external_body]
     pub fn last(self) -> (r: Option<T>)
